@@ -45,6 +45,8 @@ NPQ_KERNELS = [
     # HighConditionedElliptic.f: the condition weights `1e6 ** ((i - 1) / (D - 1))`, i = 1..D, are the function parameter `cw D j` (column j = i - 1;
     # for D = 1 the real exponent is 0/0)
     dict(name="Bench_Elliptic_f", file=B, cls="HighConditionedElliptic", func="f", cond_weights="cw"),
+    # Ackley.f: `np.exp`, `np.sqrt` are the function parameters `expo`, `sqrtf`; `np.cos(c * x)` with c = 2 * np.pi is `cs`
+    dict(name="Bench_Ackley_f", file=B, cls="Ackley", func="f", ackley=True, ret="VQ"),
     # jDE's parameter regeneration (C15): which entries are redrawn (the mask of the first draw against the rate) and from what
     # (the second draw, affinely mapped for F); `uniform(0, 1, size=n)` is the function parameter `draw <ordinal> n`
     dict(name="jDE_get_mutate_F", file="optimizers/_jde.py", cls="jDE", func="_get_mutate_F", params=[], ret="VQ",
@@ -375,6 +377,7 @@ class TrQ:
         self.n = 0
         self.draws = 0
         self.sqi_of = {}
+        self.rename = {}
 
     ind = "  "
 
@@ -401,7 +404,7 @@ class TrQ:
         if isinstance(e, ast.Name):
             if e.id not in self.env:
                 raise NotRecognised(f"unknown name {e.id}")
-            return e.id, self.env[e.id]
+            return self.rename.get(e.id, e.id), self.env[e.id]
         if isinstance(e, ast.Call) and is_np(e.func, "array") and len(e.args) == 1 and not e.keywords and ast.unparse(e.args[0]).startswith("list(") \
                 and ast.unparse(e.args[0]).endswith(".keys())") and self.env.get(ast.unparse(e.args[0])[5:-8]) == "DQ":
             return f"(List.range {ast.unparse(e.args[0])[5:-8]}.length)", "KEYS"       # the keys of a table, read as their positions
@@ -526,6 +529,40 @@ class TrQ:
             if (ka, kb) != ("VQ", "S1"):
                 raise NotRecognised("< operand kinds")
             return f"(NpQ.ltMask {a} {b})", "MB"
+        if self.cfg.get("ackley"):
+            # c = 2 * np.pi (kind TWOPI: only ever used inside np.cos(c * M))
+            if ast.unparse(e) == "2 * np.pi":
+                return "twopi", "TWOPI"
+            # D = M.shape[1], as a number
+            if isinstance(e, ast.Subscript) and ast.unparse(e).endswith(".shape[1]") and self.env.get(ast.unparse(e)[:-9]) == "Q":
+                return f"(({ast.unparse(e)[:-9]}.ncols : Nat) : Rat)", "S1"
+            if isinstance(e, ast.UnaryOp) and isinstance(e.op, ast.USub):
+                x, k = self.E(e.operand)
+                if k in ("S", "S1"):
+                    return f"(-{x})", "S1"
+                if k == "VQ":
+                    return f"({x}.map (fun a => -a))", "VQ"
+                raise NotRecognised("negated kind")
+            if isinstance(e, ast.Call) and (is_np(e.func, "exp") or is_np(e.func, "sqrt")) and len(e.args) == 1 and not e.keywords:
+                fn = "expo" if is_np(e.func, "exp") else "sqrtf"
+                x, k = self.E(e.args[0])
+                if k in ("S", "S1"):
+                    return f"({fn} {x})", "S1"
+                if k == "VQ":
+                    return f"({x}.map {fn})", "VQ"
+                raise NotRecognised(fn + " operand")
+            if isinstance(e, ast.Call) and is_np(e.func, "cos") and len(e.args) == 1 and not e.keywords:
+                a = e.args[0]
+                if isinstance(a, ast.BinOp) and isinstance(a.op, ast.Mult) and isinstance(a.left, ast.Name) and self.env.get(a.left.id) == "TWOPI" \
+                        and self._kind(a.right) == "Q":
+                    return f"(NpQ.map cs {self.E(a.right)[0]})", "Q"
+                raise NotRecognised("cos operand " + ast.unparse(a))
+            if isinstance(e, ast.Call) and is_np(e.func, "sum") and len(e.args) == 1 and [k.arg for k in e.keywords] == ["axis"] \
+                    and (is_const(e.keywords[0].value, 1) or is_const(e.keywords[0].value, -1)):
+                x, k = self.E(e.args[0])
+                if k != "Q":
+                    raise NotRecognised("sum of a non-array")
+                return f"(NpQ.sumRows {x})", "VQ"
         if self.cfg.get("cond_weights"):
             # i = np.arange(1, M.shape[1] + 1)  (kind IDX1)  and  D = M.shape[1]  (kind DIM): only ever used inside the weight expression
             if isinstance(e, ast.Call) and is_np(e.func, "arange") and len(e.args) == 2 and not e.keywords and is_const(e.args[0], 1) \
@@ -787,6 +824,13 @@ class TrQ:
             if not (isinstance(st, ast.Assign) and len(st.targets) == 1 and isinstance(st.targets[0], ast.Name)):
                 raise NotRecognised("statement " + ast.unparse(st)[:60])
             x, k = self.E(st.value)
+            if self.cfg.get("ackley") and k in ("S", "TWOPI"):
+                if k == "S":
+                    # the lambdas of the emitted terms bind `a` and `b`: a Python scalar gets a name they cannot capture
+                    self.rename[st.targets[0].id] = "py_" + st.targets[0].id
+                    self.lines.append(f"  let py_{st.targets[0].id} : Rat := {x}")
+                self.env[st.targets[0].id] = "S1" if k == "S" else k
+                continue
             if k in ("IDX1", "DIM"):
                 self.sqi_of[st.targets[0].id] = x
                 self.env[st.targets[0].id] = k
@@ -805,7 +849,7 @@ class TrQ:
             raise NotRecognised("returned kind")
         self.lines.append(f"  return {x}")
         lean_k = {"Q": "NpQ.Mat", "VQ": "List Rat", "N": "Nat", "S1": "Rat"}
-        params = ([f"({cfg['cos2pi']} : Rat → Rat)"] if cfg.get("cos2pi") else []) + ([f"({cfg['cos_sqrt_idx']} : Nat → Rat → Rat)"] if cfg.get("cos_sqrt_idx") else []) + ([f"({cfg['cond_weights']} : Nat → Nat → Rat)"] if cfg.get("cond_weights") else []) + (["(draw : Nat → Nat → List Rat)"] if self.draws else []) \
+        params = ([f"({cfg['cos2pi']} : Rat → Rat)"] if cfg.get("cos2pi") else []) + ([f"({cfg['cos_sqrt_idx']} : Nat → Rat → Rat)"] if cfg.get("cos_sqrt_idx") else []) + ([f"({cfg['cond_weights']} : Nat → Nat → Rat)"] if cfg.get("cond_weights") else []) + (["(expo sqrtf cs : Rat → Rat)"] if cfg.get("ackley") else []) + (["(draw : Nat → Nat → List Rat)"] if self.draws else []) \
             + [f"(self{a} : {lean_k[k_]})" for a, k_ in cfg.get("self_attrs", [])] + [f"({p} : {lean_k[k_]})" for p, k_ in plist]
         cls_txt = (cfg["cls"] + ".") if cfg["cls"] else ""
         ret_ty = "Rat" if cfg.get("ret") == "S1" else "List Rat"
